@@ -33,13 +33,14 @@ theorem C08_skip_empty_target (s : Sess) (occ : List (Nat × Nat)) (e : HEdit) (
 /-- An edit whose target cannot be located — it occurs literally (also with quotes normalised) in neither
 the raw nor the accepted text *as a client extracts them*, and the non-literal matchers return nothing —
 is counted as skipped and has no effect at all. -/
-theorem C08_skip_not_found (s : Sess) (occ : List (Nat × Nat)) (e : HEdit) (hr : e.fzRaw = none) (hc : e.fzClean = none)
+theorem C08_skip_not_found (s : Sess) (occ : List (Nat × Nat)) (e : HEdit) (hcm : s.cmap = commentsMap s.doc)
+    (hr : e.fzRaw = none) (hc : e.fzClean = none)
     (h1 : Markup.find e.target (extractText false s.doc) = none)
     (h2 : Markup.find (Markup.replaceSmart e.target) (Markup.replaceSmart (extractText false s.doc)) = none)
     (h3 : Markup.find e.target (extractText true s.doc) = none)
     (h4 : Markup.find (Markup.replaceSmart e.target) (Markup.replaceSmart (extractText true s.doc)) = none) :
     applyHeuristic s occ e = (s, false, none) := by
-  rw [← spans_text_eq_extractText] at h1 h2 h3 h4
+  rw [← spans_text_eq_extractText s _ hcm] at h1 h2 h3 h4
   exact applyHeuristic_not_found s occ e (locate_absent s e hr hc h1 h2 h3 h4)
 
 /-- Whatever the reason, a searched edit that is reported as skipped (not found, empty, conflicting with an
@@ -91,9 +92,9 @@ theorem sample_text (c : Bool) : extractText c sampleSess.doc = "Hello big world
   cases c <;> decide +kernel
 
 example : applyHeuristic sampleSess [] absentEdit = (sampleSess, false, none) := by
-  apply C08_skip_not_found sampleSess [] absentEdit rfl rfl <;> rw [sample_text] <;> decide +kernel
+  apply C08_skip_not_found sampleSess [] absentEdit rfl rfl rfl <;> rw [sample_text] <;> decide +kernel
 
 example : (applyHeuristic sampleSess [] absentEdit).2.1 = false := by
-  rw [C08_skip_not_found sampleSess [] absentEdit rfl rfl] <;> (try rw [sample_text]) <;> decide +kernel
+  rw [C08_skip_not_found sampleSess [] absentEdit rfl rfl rfl] <;> (try rw [sample_text]) <;> decide +kernel
 
 end Adeu.Props.C08
